@@ -26,7 +26,7 @@ Side regimes with their own mechanism keys (structural features of the pair, nev
    placeholders of the matrix-inversion real / imaginary test are visible (> ARTEFACT_MAX) in either input;
  - 'frequency-unit-dependence:<lstsq|pinv>': the pair is well-conditioned in natural units but, for at least one of
    the two inputs, the design matrix in the library's own units (rad/s, unnormalised columns) is not (RAW_GATE fails)
-   and the transform rescales the frequencies.
+   and the transform rescales the frequencies by at least five decades (|log10 b| >= MIN_LOG_B).
 """
 import json
 import warnings
@@ -61,7 +61,8 @@ CHI_ATOL = 1e-12
 PAR_TOL = 1e-4
 TAU_TOL = 1e-10
 CNLS_RES_TOL = 1e-1   # cnls results are termination-limited, not rounding-limited (see C07): only gross changes are caught
-ARTEFACT_MAX = 1e-8
+ARTEFACT_MAX = 1e-7   # 100x below RES_TOL
+MIN_LOG_B = 5.0       # frequency-unit regime: |log10 b| at least this
 # Conditioning gates.  On noisy (inconsistent) data the rounding error of a least-squares solution carries an extra
 # cond*residual term, so the thresholds are one decade tighter than C07's.
 #   FREE_GATE  unit-free: statistics of the column-normalised systems (invariant under a and b)
@@ -235,9 +236,10 @@ def check_pair(p):
     raw_ok = raw_gate(test, st1) and raw_gate(test, st2)
     placeholder = max(st1["artefact"], st2["artefact"]) > ARTEFACT_MAX
     # judged: well-conditioned in natural units AND (also in the library's units, or the transform changes the frequency
-    # unit - then the unit-dependence of the conditioning is itself the subject).  A pair that is ill-conditioned in the
-    # library's units on both sides without any frequency rescaling (Z*a, reverse) is plain ill-conditioning: reported only.
-    units = bool(free_ok and not raw_ok and b != 1.0 and km.solver_class(test) in ("lstsq", "pinv"))
+    # unit by >= MIN_LOG_B decades - then the unit-dependence of the conditioning is itself the subject).  A pair that is
+    # ill-conditioned in the library's units without such a rescaling (Z*a, reverse, moderate b) is plain
+    # ill-conditioning: reported only.
+    units = bool(free_ok and not raw_ok and abs(np.log10(b)) >= MIN_LOG_B and km.solver_class(test) in ("lstsq", "pinv"))
     inside = bool(free_ok and (raw_ok or units))
     viol = []
     replay = {"kind": "explicit", "pair": {k: v for k, v in p.items() if k != "meta"}}
@@ -403,8 +405,8 @@ def run_case(case):
         else:
             cnt("outside_gate")
             mx(f"outside:dres:{tname}", o.get("dres"))
-            if p["b"] == 1.0:
-                mx(f"outside:dres(no f scaling):{tname}", o.get("dres"))
+            if abs(np.log10(p["b"])) < MIN_LOG_B:
+                mx(f"outside:dres(|log10 b|<5):{tname}", o.get("dres"))
     return {"evals": evals, "keys": keys, "viol": viol[:40], "stats": stats, "maxobs": maxobs, "sample": sample}
 
 
